@@ -69,7 +69,7 @@ def replay_last(mgr, other, nthreads, g0, hist, fresh_threads=False):
                         other.clear_tls()
                 r = None
                 for ev in seg:
-                    r = mgr.op(ev, ctxs[t])
+                    r = mgr.op(ev, ctxs[t], by_instance=(t % 2 == 1))  # odd threads select by instance, even ones by name
                 return r
 
             cleared[t] = True
@@ -275,7 +275,7 @@ def sx_bodies(mgr, threads_ops):
                         except Exception as e:
                             r = ("obs", "raised:" + type(e).__name__)
                     else:
-                        r = mgr.op(ev, ctxs)
+                        r = mgr.op(ev, ctxs, by_instance=(t % 2 == 1))
                     rec(("res", (t, k), r))
             finally:
                 for cm in reversed(ctxs):  # never leave a generator-based context to the garbage collector
